@@ -1027,6 +1027,7 @@ char * SCPI_dtostre(double __val, char * __s, size_t __ssize, unsigned char __pr
     int sign = SCPIDEFINE_signbit(__val);
     char * s = buffer;
     int decpt;
+    int last = __prec;
     if (sign) {
         __val = -__val;
         s[0] = '-';
@@ -1062,6 +1063,7 @@ char * SCPI_dtostre(double __val, char * __s, size_t __ssize, unsigned char __pr
         memmove(s + decpt + 1, s, __prec + 1);
         memset(s, '0', decpt + 1);
         s[1] = '.';
+        last = __prec + decpt; /* digits were moved behind the leading zeros */
         decpt = 0;
     } else {
         memmove(s + 2, s + 1, __prec + 1);
@@ -1069,7 +1071,7 @@ char * SCPI_dtostre(double __val, char * __s, size_t __ssize, unsigned char __pr
         decpt--;
     }
 
-    s = &s[__prec];
+    s = &s[last];
     while (s[0] == '0') {
         s[0] = 0;
         s--;
